@@ -79,3 +79,49 @@ func VerifC17Bisect(h *verifh.H) {
 	h.Observe("delivered", len(sink.delivered))
 	h.Observe("reported", len(handler.reported))
 }
+
+// VerifC17Transient: as VerifC17Bisect, but one sink call (any call of the
+// run, of any batch size) additionally fails transiently. The oracle is taken
+// from what the sink actually did: an entity is reported to the handler iff
+// the sink rejected it in a call of its own (exactly once, in that order);
+// every other entity is delivered exactly once; nothing is both; an entity the
+// sink never rejected on its own is never reported and never withheld.
+func VerifC17Transient(h *verifh.H) {
+	maxN := h.Param("maxN", 5)
+	n := h.Choice("n", maxN) + 1
+	ents := vEntities(n)
+	failing := map[string]bool{}
+	for i := 0; i < n; i++ {
+		if h.Param("permanent", 1) == 1 && h.Bool("fail"+strconv.Itoa(i)) {
+			failing[ents[i].ID] = true
+		}
+	}
+	transient := h.Choice("transientCall", 2*n+1) - 1 // -1: none
+	hub := server.VerifNewHub(h)
+	runner := vRunner(hub, 2, 2)
+	sink := &vSink{failing: failing, failBatch: transient}
+	handler := &vCountingHandler{inner: &LogFailingEntityHandler{MaxItems: 0, jobId: "j", jobTitle: "j"}}
+	ws := &wrappedSink{s: sink, failingEntityHandlers: []failingEntityHandler{handler}, jobId: "j"}
+	err := ws.processEntities(runner, ents)
+	h.Assert(err == nil, "without maxItems the batch call returns nil")
+	rej := map[string]int{}
+	for _, id := range sink.rejected1 {
+		rej[id]++
+	}
+	h.Assert(len(handler.reported) == len(sink.rejected1), "exactly the entities the sink rejected on their own are reported :: reported="+vJoinS(handler.reported)+" rejected="+vJoinS(sink.rejected1))
+	for k, id := range sink.rejected1 {
+		h.Assert(k < len(handler.reported) && handler.reported[k] == id, "rejected entities are reported in order")
+	}
+	for i := 0; i < n; i++ {
+		id := ents[i].ID
+		d := vCount(sink.delivered, ents[i])
+		h.Assert(rej[id] <= 1, "no entity is offered on its own twice")
+		if rej[id] == 0 {
+			h.Assert(d == 1, "an entity the sink never rejected on its own is delivered exactly once :: id="+id+" delivered="+strconv.Itoa(d)+" reported="+vJoinS(handler.reported))
+		} else {
+			h.Assert(d == 0, "a rejected entity is not delivered as well")
+		}
+	}
+	h.Assert((ws.lastError != nil) == (len(sink.rejected1) > 0), "the outcome carries an error iff an entity was rejected")
+	h.Observe("delivered", len(sink.delivered))
+}
